@@ -106,8 +106,43 @@ def chemical(n, e0, e1, e2, e3, e4, b01=0, b02=0, b03=0, b04=0, b12=0, b13=0, b1
             return f"charges {charges} / unpaired electrons {unpaired} on a neutral closed-shell molecule {pe} {pac.tolist()}"
         inv = np.argsort(perm)
         results.append(tuple(int(bo[i].sum()) for i in inv))
+    msg = _export_check(els, ac)
+    if msg:
+        return msg
     # "independently of the order of the atoms": the guarantee above holds for every order tried; where several valence-correct
     # assignments exist (S(II)/S(VI), P(III)/P(V)) different orders may legitimately return different ones.
+    return None
+
+
+def _export_check(els, ac):
+    """the bond orders written onto the RDKit molecule by set_bond_orders (MolGraph._to_rdmol) are the computed ones, per graph bond, also when
+    the identifiers are not 0..n-1 in ascending insertion order"""
+    from stereomolgraph.algorithms.bond_orders import connectivity2bond_orders
+    from stereomolgraph.graphs.mg import MolGraph
+    n = len(els)
+    for ids in (list(range(n)), [7, 3, 11, 5, 2][:n], list(range(n - 1, -1, -1))):
+        g = MolGraph()
+        for i in range(n):
+            g.add_atom(ids[i], els[i])
+        for i in range(n):
+            for j in range(i + 1, n):
+                if ac[i, j]:
+                    g.add_bond(ids[i], ids[j])
+        with warnings.catch_warnings():
+            warnings.simplefilter("ignore")
+            bo, _, _ = connectivity2bond_orders(g.atom_types, g.connectivity_matrix())
+            try:
+                mol, idx_map = g._to_rdmol(generate_bond_orders=True)
+            except Exception as e:
+                return f"export with bond orders raised {type(e).__name__}: {e} for ids {ids}"
+        pos = {a: k for k, a in enumerate(g.atoms)}
+        rd = {a: k for k, a in idx_map.items()}
+        for b in g.bonds:
+            x, y = tuple(b)
+            got = mol.GetBondBetweenAtoms(rd[x], rd[y]).GetBondTypeAsDouble()
+            exp = float(bo[pos[x]][pos[y]])
+            if got != exp:
+                return f"RDKit bond {x}-{y} has order {got}, bond-order matrix says {exp} (ids {ids}, elements {els})"
     return None
 
 
